@@ -200,6 +200,12 @@ impl Context {
 //@@ header-from specs/ctx/new_with_no_context.spec
 //@@ endfn
 
+//@@ fn ctx.new_with_input = src/processor.rs :: impl Context :: fn new_with_input
+//@@ safety C11 C17
+//@@ ret r
+//@@ header-from specs/ctx/new_with_input.spec
+//@@ endfn
+
 //@@ fn ctx.input_context = src/processor.rs :: impl Context :: fn input_context
 //@@ safety C17
 //@@ ret r
